@@ -186,7 +186,7 @@ def _absorb(ck, items):
                 ck.inconclusive(r["why"])
                 continue
             nontrivial = r.get("gap") is not None and r["gap"] >= 1e-3 and r["norm"] > 1e-3
-            ck.case(key, nontrivial=nontrivial, sample=dict(routine=name, cls=cls, norm=r.get("norm"), gap=r.get("gap"), cond=r.get("cond"), status=r["status"], exp_err_over_tol=r.get("margin")) if idx % 487 == 0 else None)
+            ck.case(key, nontrivial=nontrivial, sample=dict(routine=name, cls=cls, norm=r.get("norm"), gap=r.get("gap"), cond=r.get("cond"), status=r["status"], exp_err_over_tol=r.get("margin")) if (idx % 487 == 0 or not ck.samples) else None)
             ck.hit(name)
             ck.hit(f"class_{cls}")
             if r["status"] == "ok":
@@ -207,6 +207,7 @@ def run(ck):
 def replay(ck, rep):
     w = rep["witness"]
     M = np.array([[complex(x[0], x[1]) if isinstance(x, list) else complex(x) for x in row] for row in w["matrix"]])
-    _absorb(ck, [(w["routine"], w.get("cls", "replay"), M)])
+    # the witness itself plus its transpose (same spectrum) so that the replay is more than a single point
+    _absorb(ck, [(w["routine"], w.get("cls", "replay"), M), (w["routine"], w.get("cls", "replay") + "-transposed", np.ascontiguousarray(M.T))])
     ck.min_nontrivial = 0
     ck.meta = dict(ck.meta, required_hits=[])
